@@ -240,8 +240,14 @@ def group_case(draw, disabled=()):
             const = ["int", 1000, "1000", "int"] if field == "Fee" else ["addr", "ZERO", "global"]
             op = "<=" if field == "Fee" else "=="
             if via_abs:
-                rd = ["read", {"kind": "gtxn", "field": field, "idx": gb["pos"]}]
-                head = [I("gtxn", gb["pos"], field)]
+                how_ = draw(st.sampled_from(["gtxn", "int", "pushint"]))
+                if how_ == "gtxn" or contracts[ga["lsig"]]["version"] < 3:
+                    rd = ["read", {"kind": "gtxn", "field": field, "idx": gb["pos"]}]
+                    head = [I("gtxn", gb["pos"], field)]
+                else:
+                    # the same absolute read spelled with the index on the stack
+                    rd = ["read", {"kind": "gtxns", "field": field, "idx": gb["pos"]}]
+                    head = [I(how_, gb["pos"]), I("gtxns", field)]
                 gb["abs_cfg"] = gb["pos"]
             else:
                 off = gb["pos"] - ga["pos"]
